@@ -511,10 +511,17 @@ def saveTree (H : Bytes → Bytes) (cfg : Cfg) (bh : Nat) (t : Tree) (db : NodeD
     | none => .panic
     | some (n'', db') => .ok (root, some n'', db')
 
+/-- leaf values dropped: what a tree read back from MVCC-elided records looks like. -/
+def stripValues : Node → Node
+  | .leaf k _ m => .leaf k [] m
+  | .inner k h s l r m => .inner k h s (stripValues l) (stripValues r) m
+
+/-- remember a saved tree in the node cache.  `nodeDB.cache` never holds leaves (only nodes higher than 2), so
+under MVCC a later read sees no values: the cached tree is the one the records describe. -/
 def Store.cacheTree (s : Store) (root : Bytes) (t : Tree) : Store :=
   match t with
   | none => s
-  | some n => { s with cache := s.cache.insert root n }
+  | some n => { s with cache := s.cache.insert root (if s.cfg.mvcc then stripValues n else n) }
 
 /-- `SetKVPair` (= `Store.Set`). -/
 def Store.setKV (H : Bytes → Bytes) (s : Store) (parent : Bytes) (bh : Nat) (kvs : List (Bytes × Bytes)) :
